@@ -49,7 +49,10 @@ def run(ctx) -> None:
     ga.distribution_version = lambda dist: ""
     reqs, metas = [], []
     try:
+        import time
         for i in range(n):
+            if time.time() > ctx.deadline:
+                break
             top = base / f"t{i}"
             under_tests = rng.random() < 0.08
             root = (top / "tests" / "data" / "proj") if under_tests else (top / rng.choice(["proj", "my_pkg", "docs_project"]))
